@@ -23,8 +23,7 @@ CHECKS = {
                 "points only checked to fit 5 bits.",
     },
     "C04": {
-        "technique": "static analysis: whole-program may-raise summaries (exception-class fixpoint over the resolved call graph "
-                     "with callback slots resolved by a wiring table) checked against the handlers of each receive loop",
+        "technique": "static analysis: whole-program may-raise summaries (exception-class fixpoint over the resolved call graph, callback slots resolved by a wiring table) checked against the handlers of each receive loop; cannot-raise list for handler bodies; implication between guard formulas for the address filter; ordering rule (content-dependent rejection before the first transitive state write) in every receive handler",
         "text": "Decides that no exception CLASS can propagate from the wired receive-callback closure (GN router, verify "
                 "service, BTP router, CAM/DENM/VAM reception, LDM adaptation, clustering) out of RawLinkLayer.receive or "
                 "PythonCV2XLinkLayer.callback_handler_loop, that no handler catching such an exception leaves the loop, that "
@@ -115,8 +114,7 @@ CHECKS = {
                 "integers (the repository code is not executed).",
     },
     "C19": {
-        "technique": "static analysis: literal-table rules, guard/bounds rules, formula identity (polynomial normal form) of the "
-                     "LIMERIC and gate equations",
+        "technique": "static analysis: symbolic paths of the loop-free DCC methods (branch conditions and stored values in entry-state terms), polynomial formula identities for LIMERIC and the gate equations, table agreement rules, complete evaluation of the table selection over 0..4000 us",
         "text": "Decides: Annex A tables are internally consistent (bands contiguous from 0 to above 1 in state order, rate x T_off "
                 "= 1000, rates monotone); the reactive machine stores one state per evaluation, moves by -1/0/+1 towards the "
                 "target and outputs the row of the state just stored; CBR inputs are range-checked before any state change; the "
@@ -129,8 +127,7 @@ CHECKS = {
                 "Annex B are embedded as expression templates.",
     },
     "C20": {
-        "technique": "static analysis: exact finite-partition interpretation of the lifetime quantiser against the 256 "
-                     "representable values, provenance and guard rules on hop/lifetime fields",
+        "technique": "static analysis: exact piecewise table of the lifetime quantiser on the finite partition induced by the 4 x 64 representable values, per-site argument binding of lifetime / hop-limit sources, structural guard rules",
         "text": "Decides: for every requested lifetime 0..7 000 000 ms (exhaustive over the partition induced by the constants the "
                 "function uses and the representable values) the encoded lifetime never exceeds the request, is non-zero from 50 ms, "
                 "is the largest representable value and keeps the multiplier in 6 bits; reader units = clause 9.6.4; LT of an "
@@ -187,8 +184,7 @@ CHECKS = {
         "note": _BASE_NOTE + "Profile tables from TS 103 097 V2.1.1 clause 7.1 embedded in rules/c05.py.",
     },
     "C10": {
-        "technique": "static analysis: guard facts on every generation/transmission site, bounds on T_GenCam stores, finally-based "
-                     "re-arming, paired LF rules, formula identity of generationDeltaTime",
+        "technique": "static analysis: guard formulas at every generation/transmission site compared by truth table (exactly-when), argument binding, must-call facts, interpretation of the small numeric predicates on boundary partitions, formula identity of generationDeltaTime",
         "text": "Decides the structural necessary conditions of the CAM/VAM timing rules: CAMs are generated from one decision point, "
                 "each site under `first CAM` or `now - last >= T_GenCam_DCC (>= 100 ms)`; condition-1 needs the dynamics trigger "
                 "(heading > 4 deg with 0/360 fold, haversine > 4 m, speed > 0.5 m/s against the values stored from the last CAM's "
@@ -216,8 +212,7 @@ CHECKS = {
                 "+-90, lon +-180, altHAE -1000..10000 m, speed 0..200 m/s, track 0..360, epx/epy/epv 0..500, epd 0..360.",
     },
     "C17": {
-        "technique": "static analysis: provenance rules on the BTP request and LDM feed, counting-loop idiom recognition for the "
-                     "repetition schedule, identity provenance + critical-section rule for the action-id allocator",
+        "technique": "static analysis: must-call and argument-binding rules on the BTP request and LDM feed, counting-loop idiom recognition with polynomial increment / ceil forms, allocator decided on its symbolic paths (complete evaluation over 0..65535) plus critical-section rule, ASN.1 schema conformance of the identity / position stores",
         "text": "Decides: every DENM is handed to BTP as a GeoBroadcast-circle request (port 2002, DENM profile, ITS-AID 37) whose "
                 "area centre is the eventPosition of the very dictionary that is encoded; the repetition loop has the form "
                 "`t = 0; while t < T: send; wait i; t += i` with one unconditional send before the wait, which yields ceil(T/i) "
@@ -257,8 +252,7 @@ CHECKS = {
         "note": _BASE_NOTE + "In-memory back-end; class hierarchy analysis covers reactive and threaded service/maintenance variants.",
     },
     "C13": {
-        "technique": "static analysis: table agreement rules (operator vocabulary in three places, lambda bodies), sibling rules "
-                     "between the two search implementations",
+        "technique": "static analysis: table agreement (operator vocabulary in three places), structural rules on the AST with canonical condition atoms, argument binding at the operator lookups, sibling rules between the two search implementations, truth-table decision of the like/notlike predicate",
         "text": "Decides: ComparisonOperators/LogicalOperators __str__ tables, OPERATOR_MAPPING keys and the literals tested by both "
                 "back-ends agree; each lambda implements the comparison its key names, notlike = not like; 'and' combines with "
                 "and, the other branch with or, in both back-ends; both back-ends root dotted attribute paths at record"
@@ -268,8 +262,7 @@ CHECKS = {
         "note": _BASE_NOTE,
     },
     "C14": {
-        "technique": "static analysis: guard facts on the callback call chain, provenance of the notified data, paired bookkeeping "
-                     "rules, validation decision table",
+        "technique": "static analysis: path-by-path symbolic walk of the subscription functions (branch conditions as canonical atoms, calls resolved and arguments bound, stores recorded), validation decision table",
         "text": "Decides: process_notifications is reached only for a non-empty result, with multiplicity satisfied and for a consumer "
                 "still registered; the callback runs only when last + notify_time <= now, outside the lock, with the search result of "
                 "this subscription (its types/filter/order) and its own callback; the last-notified time advances exactly when "
